@@ -216,4 +216,60 @@ example : ((fullLikelihood (3 : Nat) (10 : Nat) (fun c x g => (c + x + g, g + 1)
     = [14, 16, 16] := by decide
 example : ((cachedLikelihood (3 : Nat) (fun c x => c + x)).run none [1, 2, 1]).2 = [4, 5, 4] := by decide
 
+/-! ### D. keyed caches: when is a one-entry cache history independent, and which history shows that it is not -/
+
+/-- **a keyed cache is sound if the key determines the cached object**: every history then returns, at every
+    step, the value of a fresh evaluation -/
+theorem keyed_cache_sound {K V X O : Type} [DecidableEq K] (key : X → K) (build : X → V) (eval : V → X → O)
+    (hkey : ∀ x y, key x = key y → build x = build y) (h : List X) :
+    ((keyedCache key build eval).run none h).2 = h.map (fun x => eval (build x) x) := by
+  have := history_independent (keyedCache key build eval)
+    (fun s => s = none ∨ ∃ x0, s = some (key x0, build x0)) (fun x => eval (build x) x) (Or.inl rfl)
+    (by
+      intro s x hs
+      rcases hs with rfl | ⟨x0, rfl⟩
+      · exact ⟨Or.inr ⟨x, rfl⟩, rfl⟩
+      · by_cases hk : key x0 = key x
+        · refine ⟨Or.inr ⟨x, ?_⟩, ?_⟩
+          · simp [keyedCache, hk, hkey x0 x hk]
+          · simp [keyedCache, hk, hkey x0 x hk]
+        · refine ⟨Or.inr ⟨x, ?_⟩, ?_⟩
+          · simp [keyedCache, hk]
+          · simp [keyedCache, hk]) h
+  exact this.2
+
+/-- **the twin history is a complete test**: if two points share the key but the second point's evaluation
+    distinguishes their cached objects, then visiting them back to back on a fresh object returns, at the second
+    visit, the stale value — not the value of a fresh evaluation.  (This is why every harness history contains,
+    for each parameter, `base, twin` with the twin differing in that parameter alone: C04 history stream, C05
+    one-parameter paths, C08 forced twins.) -/
+theorem keyed_cache_twin_witness {K V X O : Type} [DecidableEq K] (key : X → K) (build : X → V)
+    (eval : V → X → O) (x y : X) (hk : key x = key y) (hne : eval (build x) y ≠ eval (build y) y) :
+    ((keyedCache key build eval).run none [x, y]).2 = [eval (build x) x, eval (build x) y] ∧
+    ((keyedCache key build eval).run none [x, y]).2 ≠ [x, y].map (fun z => eval (build z) z) := by
+  have e : ((keyedCache key build eval).run none [x, y]).2 = [eval (build x) x, eval (build x) y] := by
+    simp [Machine.run, keyedCache, hk]
+  refine ⟨e, ?_⟩
+  rw [e]
+  intro h
+  simp only [List.map_cons, List.map_nil, List.cons.injEq, and_true, true_and] at h
+  exact hne h
+
+/-- **exactly**: a one-entry keyed cache whose evaluation exposes the cached object is history independent iff
+    the key determines the object -/
+theorem keyed_cache_history_independent_iff {K V X : Type} [DecidableEq K] (key : X → K) (build : X → V) :
+    (∀ h : List X, ((keyedCache key build (fun v _ => v)).run none h).2 = h.map build)
+      ↔ ∀ x y, key x = key y → build x = build y := by
+  constructor
+  · intro hall x y hk
+    by_contra hne
+    exact (keyed_cache_twin_witness key build (fun v _ => v) x y hk hne).2 (hall [x, y])
+  · intro hkey h
+    exact keyed_cache_sound key build (fun v _ => v) hkey h
+
+/-- non-vacuity: a cache keyed on the first coordinate only, of a quantity that depends on both (the FwCDM
+    cache without `w`): the history `[(70, -1), (70, -0.6)]` returns the stale value -/
+example : ((keyedCache (fun x : Nat × Nat => x.1) (fun x => x.1 + x.2) (fun v _ => v)).run none [(70, 1), (70, 6)]).2
+    = [71, 71] := by decide
+
 end HierArc.C08
